@@ -257,7 +257,20 @@ def minimise(sub: Sub, preds, prop, failure, budget):
 # ---------------------------------------------------------------------------
 
 
+def _reexec_with_replay_hashseed(path):
+    """A replay file records the PYTHONHASHSEED of the run that produced it; replaying happens under the same string hashing."""
+    try:
+        hs = json.load(open(path)).get("hashseed")
+    except Exception:
+        return
+    if hs is not None and os.environ.get("PYTHONHASHSEED") != str(hs) and not os.environ.get("VERIF_NO_REEXEC"):
+        os.environ["PYTHONHASHSEED"] = str(hs)
+        os.environ["VERIF_NO_REEXEC"] = "1"
+        os.execv(sys.executable, [sys.executable, "-W", "ignore", "-m", "vf.runner"] + sys.argv[1:])
+
+
 def write_replay(prop, failure, outdir):
+    failure.setdefault("hashseed", os.environ.get("PYTHONHASHSEED"))
     os.makedirs(outdir, exist_ok=True)
     h = spec_hash(failure["spec"])
     path = os.path.join(outdir, f"{failure['subcheck']}-{h:016x}.json")
@@ -309,6 +322,7 @@ def main(argv=None):
 
     # ---- replay of one file ------------------------------------------------
     if args.replay:
+        _reexec_with_replay_hashseed(args.replay)
         try:
             fail, _ = run_replay_file(mod, args.replay, preds)
         except BaseException:
